@@ -32,6 +32,10 @@ def queries(tier):
     for b, bn in enumerate(["scan-line width", "palette index", "header frame total", "header layer total"]):
         qs.append(Query("reject_read_%d" % b, "C10_art.cpp", "h_art_reject_read", dict(rej, BADRULE=b), unwind=1300, timeout=1500, max_alloc=1 << 16,
                         desc="PRT whose %s deviates by any non-zero amount: refused by the reader" % bn))
+    rej0 = shape(0, 0, 0)
+    for b, bn in ((2, "header frame total"), (3, "header layer total")):
+        qs.append(Query("reject_read_%d_no_animations" % b, "C10_art.cpp", "h_art_reject_read", dict(rej0, BADRULE=b), unwind=300, timeout=900,
+                        desc="PRT without animations whose %s is any non-zero value: refused by the reader" % bn))
     for b, bn in enumerate(["scan-line width", "palette index", "frame layer count"]):
         qs.append(Query("reject_write_%d" % b, "C10_art.cpp", "h_art_reject_write", dict(rej, BADRULE=b), unwind=1300, timeout=1500, max_alloc=1 << 16,
                         desc="structure whose %s violates the rules (any deviation): refused by the writer" % bn))
